@@ -239,12 +239,24 @@ def gen_lean():
     out.append("end GeonumModel.Exec")
     return "\n".join(out) + "\n"
 
-def gen_rust():
+FEATS = ["optics", "projection", "ml", "em", "waves", "affine"]
+TRAIT_OF = {"optics": "Optics", "projection": "Projection", "ml": "MachineLearning", "em": "Electromagnetics", "waves": "Waves", "affine": "Affine"}
+
+def gen_rust(featured=False):
+    """featured=False: the harness (all features on).  featured=True: the C20 probe — every op of a trait is compiled only
+    when that trait's cargo feature (or the alias `all`) is on, so one source serves all 65 feature configurations."""
+    def gate(name):
+        f = name.split(".")[0]
+        return f'#[cfg(any(feature = "{f}", feature = "all"))] ' if featured and f in FEATS else ""
     out = []
     out.append("// GENERATED by /verif/tools/ops_table.py — do not edit. Implementation side of the protocol.")
-    out.append("#![allow(unused_variables, clippy::all)]")
+    out.append("#![allow(unused_variables, unused_imports, clippy::all)]")
     out.append("use crate::val::*;")
-    out.append("use geonum::traits::{Affine, Electromagnetics, MachineLearning, Optics, Projection, Waves};")
+    if featured:
+        for f in FEATS:
+            out.append(f'#[cfg(any(feature = "{f}", feature = "all"))] use geonum::traits::{TRAIT_OF[f]};')
+    else:
+        out.append("use geonum::traits::{Affine, Electromagnetics, MachineLearning, Optics, Projection, Waves};")
     out.append("use geonum::{Angle, GeoCollection, Geonum};")
     out.append("")
     out.append("/// (name, argument signature, result kind)")
@@ -252,7 +264,7 @@ def gen_rust():
     for (name, sig, ret, lean, rust, tags) in OPS:
         if rust is None:
             continue
-        out.append(f'    ("{name}", "{sig}", "{ret}"),')
+        out.append(f'    {gate(name)}("{name}", "{sig}", "{ret}"),')
     out.append("];")
     out.append("")
     out.append("pub fn run_op(name: &str, v: &[Val]) -> Option<String> {")
@@ -261,16 +273,22 @@ def gen_rust():
         if rust is None:
             continue
         binds = "".join(f"let x{i} = v.get({i})?.{RUST_TAKE[k]}()?; " for i, k in enumerate(sig))
-        out.append(f'        "{name}" => {{ if v.len() != {len(sig)} {{ return None; }} {binds}out_{ret.lower()}({rust}) }}')
+        out.append(f'        {gate(name)}"{name}" => {{ if v.len() != {len(sig)} {{ return None; }} {binds}out_{ret.lower()}({rust}) }}')
     out.append("        _ => return None,")
     out.append("    })")
     out.append("}")
     return "\n".join(out) + "\n"
 
+def gen_probe_val(root):
+    src = open(os.path.join(root, "harness/src/val.rs")).read()
+    return "// GENERATED copy of /verif/harness/src/val.rs by /verif/tools/ops_table.py — do not edit.\n" + src
+
 if __name__ == "__main__":
     root = os.path.dirname(os.path.dirname(os.path.abspath(__file__)))
     targets = {os.path.join(root, "lean/GeonumModel/Exec/Dispatch.lean"): gen_lean(),
-               os.path.join(root, "harness/src/ops_gen.rs"): gen_rust()}
+               os.path.join(root, "harness/src/ops_gen.rs"): gen_rust(),
+               os.path.join(root, "probe20/src/ops_gen.rs"): gen_rust(featured=True),
+               os.path.join(root, "probe20/src/val.rs"): gen_probe_val(root)}
     if len(sys.argv) > 1 and sys.argv[1] == "--check":
         bad = [p for p, s in targets.items() if not os.path.exists(p) or open(p).read() != s]
         if bad:
